@@ -37,6 +37,7 @@ type VC struct {
 	strLits map[string]T
 	boxes   map[Sort]bool
 	nativeStr bool
+	strAx     bool
 	pureNames map[string]string
 }
 
@@ -122,10 +123,18 @@ func (vc *VC) prelude() {
 	vc.declare("c:opq.zero", "(declare-fun opq.zero () Opq)")
 	vc.declare("f:go.div", "(define-fun go.div ((a Int) (b Int)) Int (ite (= b 0) 0 (ite (>= a 0) (ite (> b 0) (div a b) (- (div a (- b)))) (ite (> b 0) (- (div (- a) b)) (div (- a) (- b))))))")
 	vc.declare("f:go.rem", "(define-fun go.rem ((a Int) (b Int)) Int (- a (* b (go.div a b))))")
+	vc.declare("f:gs.diff", "(declare-fun gs.diff (Str Str) Int)")
+}
+
+// needStrings adds the string axioms the first time a string operation is lowered.
+func (vc *VC) needStrings() {
+	if vc.strAx {
+		return
+	}
+	vc.strAx = true
 	vc.axiom("(forall ((s Str)) (! (>= (gs.len s) 0) :pattern ((gs.len s))))")
 	vc.axiom("(= (gs.len gs.empty) 0)")
 	// strings are extensional: needed for ==, map keys
-	vc.declare("f:gs.diff", "(declare-fun gs.diff (Str Str) Int)")
 	vc.axiom("(forall ((a Str) (b Str)) (! (=> (and (= (gs.len a) (gs.len b)) (=> (and (<= 0 (gs.diff a b)) (< (gs.diff a b) (gs.len a))) (= (gs.at a (gs.diff a b)) (gs.at b (gs.diff a b))))) (= a b)) :pattern ((gs.diff a b))))")
 }
 
@@ -186,6 +195,7 @@ func (vc *VC) sortOf(t types.Type) Sort {
 		case u.Info()&types.IsFloat != 0:
 			return SReal
 		case u.Info()&types.IsString != 0:
+			vc.needStrings()
 			return SStr
 		case u.Kind() == types.UnsafePointer:
 			return SInt
@@ -467,6 +477,7 @@ func (vc *VC) strLit(s string) T {
 	if t, ok := vc.strLits[s]; ok {
 		return t
 	}
+	vc.needStrings()
 	name := fmt.Sprintf("lit!%d", len(vc.strLits)+1)
 	vc.declare("c:"+name, fmt.Sprintf("(declare-fun %s () Str)", name))
 	t := T{name, SStr}
